@@ -438,6 +438,30 @@ func checkC10Scanner(w *World, r *Report) {
 	// ---- C10.5: the recorded start of a wildcard name is the position of its '{' (the length limit counts from there)
 	ru5 := r.Rule("C10.5", "the name of a wildcard starts at its '{': wherever the validator records the start position used for the name-length limit, the byte at the cursor is known to be '{' on that path (the {param} branch tests it, the *{param} branch has rejected anything else and stepped over the '*')", 2)
 	nStart := 0
+	// a local `c := url[i]` taken as the first statement of the scanning loop's body names the byte at the loop-head cursor
+	cursorAlias := map[string]bool{}
+	ast.Inspect(af.decl.Body, func(n ast.Node) bool {
+		if fs, ok := n.(*ast.ForStmt); ok && len(fs.Body.List) > 0 {
+			if as, ok := fs.Body.List[0].(*ast.AssignStmt); ok && as.Tok == token.DEFINE && len(as.Lhs) == 1 && len(as.Rhs) == 1 && exprStr(as.Rhs[0]) == sv+"["+iv+"]" {
+				name := exprStr(as.Lhs[0])
+				cnt := 0
+				ast.Inspect(af.decl.Body, func(m ast.Node) bool {
+					if a2, ok := m.(*ast.AssignStmt); ok {
+						for _, l := range a2.Lhs {
+							if exprStr(l) == name {
+								cnt++
+							}
+						}
+					}
+					return true
+				})
+				if cnt == 1 {
+					cursorAlias[name] = true
+				}
+			}
+		}
+		return true
+	})
 	for _, b := range af.g.Blocks {
 		if !b.Live {
 			continue
@@ -461,6 +485,10 @@ func checkC10Scanner(w *World, r *Report) {
 				for _, ff := range splitFact(f) {
 					be, ok := ff.e.(*ast.BinaryExpr)
 					if !ok || (exprStr(be.Y) != "'{'" && exprStr(be.Y) != "bracketDelim") {
+						continue
+					}
+					if id, isId := be.X.(*ast.Ident); isId && cursorAlias[id.Name] && ((be.Op == token.EQL && ff.val) || (be.Op == token.NEQ && !ff.val)) {
+						brace[0] = true
 						continue
 					}
 					ie, ok := be.X.(*ast.IndexExpr)
